@@ -21,7 +21,12 @@ macro_rules! reflected {
         pub struct $n(pub u32);
     )* };
 }
-reflected!(T0, T1, T2, TU, NR);
+reflected!(T0, T1, TU, NR);
+/// exportable like T0 / T1, with a field that reflection ignores (cloning it by reflection alone is impossible, the
+/// export has to go through `FromReflect`)
+#[derive(Component, Reflect, Serialize, Deserialize, Default, Clone, PartialEq, Debug)]
+#[reflect(Component)]
+pub struct T2(pub u32, #[reflect(ignore)] #[serde(skip)] pub u16);
 /// reflected and registered, but without `#[reflect(Component)]`
 #[derive(Component, Reflect, Serialize, Deserialize, Default, Clone, PartialEq, Debug)]
 pub struct TN(pub u32);
@@ -167,7 +172,7 @@ pub fn run(c: &Case) -> Outcome {
             match k {
                 0 => em.insert(T0(val)),
                 1 => em.insert(T1(val)),
-                2 => em.insert(T2(val)),
+                2 => em.insert(T2(val, 7)),
                 3 => em.insert(TU(val)),
                 4 => em.insert(TN(val)),
                 5 => em.insert(TZ(val)),
